@@ -185,8 +185,8 @@ AddFacts(P, db, facts) ==
    TLCEval([ r \in DOMAIN db |->
        LET new == { f[2] : f \in { g \in facts : g[1] = r } }
        IN  IF new = {} THEN db[r]
-           ELSE IF IsLat(P, r) THEN LatCollapse(LatTy(RelOf(P, r).lat), db[r] \cup new)
-           ELSE db[r] \cup new ])
+           ELSE IF IsLat(P, r) THEN TLCEval(LatCollapse(LatTy(RelOf(P, r).lat), db[r] \cup new))
+           ELSE TLCEval(db[r] \cup new) ])
 
 (* db1 below db2: relation-wise inclusion, lattice values key-wise below *)
 LatBelow(ty, S1, S2) ==
@@ -217,10 +217,11 @@ DepsOf(P, r) ==     \* set of <<relation, negative?>>
 RECURSIVE ReachIter(_, _, _)
 ReachIter(P, R, n) ==      \* R: relation -> set of relations it (transitively) depends on
    IF n = 0 THEN R
-   ELSE ReachIter(P, TLCEval([ r \in RelNames(P) |-> R[r] \cup UNION { R[d] : d \in R[r] } ]), n - 1)
+   ELSE ReachIter(P, TLCEval([ r \in RelNames(P) |-> TLCEval(R[r] \cup UNION { R[d] : d \in R[r] }) ]), n - 1)
 
 NRels(P) == Len(P.rels)
-DependsOn(P) == ReachIter(P, TLCEval([ r \in RelNames(P) |-> { d[1] : d \in DepsOf(P, r) } ]), NRels(P))
+(* each round squares the relation, so 6 rounds close dependency chains of up to 64 relations *)
+DependsOn(P) == ReachIter(P, TLCEval([ r \in RelNames(P) |-> TLCEval({ d[1] : d \in DepsOf(P, r) }) ]), 6)
 SameScc(dep, a, b) == a = b \/ (b \in dep[a] /\ a \in dep[b])
 
 (* rank = length of the longest chain of strongly connected components below a relation: a relation is *)
@@ -308,25 +309,63 @@ ExpandItems(P, items, i, path) ==
 HasMacros(P) == "macros" \in DOMAIN P /\ Len(P.macros) > 0
 MacroExpand(P) ==
    IF ~HasMacros(P) THEN P
-   ELSE [P EXCEPT !.rules = [ j \in DOMAIN @ |->
-            [ heads |-> @[j].heads, body |-> ExpandItems(P, @[j].body, 1, "r" \o ToString(j)) ] ]]
+   ELSE [P EXCEPT !.rules = TLCEval([ j \in DOMAIN @ |->
+            [ heads |-> @[j].heads, body |-> ExpandItems(P, @[j].body, 1, "r" \o ToString(j)) ] ])]
+
+--------------------------------------------------------------------------------
+(* BYODS providers (C10-C12): a relation tagged with a provider means the untagged relation plus explicit closure    *)
+(* rules - reflexive on mentioned elements, symmetric, transitive, per key for the ternary form r(K, T, T)           *)
+VarE(n) == [op |-> "var", n |-> n]
+VarA(n) == [k |-> "v", n |-> n]
+WildA == [k |-> "w"]
+ClauseOf(r, args) == [t |-> "cl", rel |-> r, args |-> args, conds |-> <<>>]
+RuleOf(r, hargs, body) == [heads |-> << [rel |-> r, args |-> hargs] >>, body |-> body]
+
+ClosureRules(r, arity, provider) ==
+   LET kA == IF arity = 3 THEN << VarA("k") >> ELSE <<>>       \* key prefix of clause arguments
+       kE == IF arity = 3 THEN << VarE("k") >> ELSE <<>>       \* key prefix of head arguments
+       refl == << RuleOf(r, kE \o <<VarE("x"), VarE("x")>>, << ClauseOf(r, kA \o <<VarA("x"), WildA>>) >>),
+                  RuleOf(r, kE \o <<VarE("y"), VarE("y")>>, << ClauseOf(r, kA \o <<WildA, VarA("y")>>) >>) >>
+       sym  == << RuleOf(r, kE \o <<VarE("y"), VarE("x")>>, << ClauseOf(r, kA \o <<VarA("x"), VarA("y")>>) >>) >>
+       trans == << RuleOf(r, kE \o <<VarE("x"), VarE("z")>>,
+                          << ClauseOf(r, kA \o <<VarA("x"), VarA("y")>>), ClauseOf(r, kA \o <<VarA("y"), VarA("z")>>) >>) >>
+   IN  CASE provider = "eqrel"    -> refl \o sym \o trans
+         [] provider = "trrel"    -> trans
+         [] provider = "trrel_uf" -> refl \o trans
+
+RECURSIVE DsRulesFrom(_, _)
+DsRulesFrom(P, i) ==
+   IF i > Len(P.rels) THEN <<>>
+   ELSE (IF P.rels[i].ds = "-" THEN <<>> ELSE ClosureRules(P.rels[i].name, Len(P.rels[i].cols), P.rels[i].ds))
+        \o DsRulesFrom(P, i + 1)
+
+WithDsRules(P) ==
+   LET extra == DsRulesFrom(P, 1) IN IF extra = <<>> THEN P ELSE [P EXCEPT !.rules = @ \o extra]
+
+Elaborate(P) == WithDsRules(MacroExpand(P))
 
 --------------------------------------------------------------------------------
 (* the least model *)
-RulesAtRank(P, rk, L) ==     \* each rule restricted to its heads of rank L
-   { [ heads |-> SelectSeq(P.rules[j].heads, LAMBDA h : rk[h.rel] = L), body |-> P.rules[j].body ] :
-        j \in { j \in 1..Len(P.rules) : \E r \in HeadRels(P.rules[j]) : rk[r] = L } }
+(* rules are addressed by their index (sets of large rule records are costly for TLC to normalise) *)
+RulesAtRank(P, rk, L) == { j \in 1..Len(P.rules) : \E r \in HeadRels(P.rules[j]) : rk[r] = L }
 
-StepRules(P, rules, db) == AddFacts(P, db, UNION { Conseq(rl, db) : rl \in rules })
+(* the facts rule j derives from db for its heads of rank L *)
+ConseqAt(rule, rk, L, db) ==
+   LET es == Envs(rule.body, 1, { <<>> }, db)
+       hs == { h \in 1..Len(rule.heads) : rk[rule.heads[h].rel] = L }
+   IN  { << rule.heads[h].rel, [ i \in 1..Len(rule.heads[h].args) |-> EvalE(rule.heads[h].args[i], e) ] >> :
+            h \in hs, e \in es }
 
-RECURSIVE Saturate(_, _, _)
-Saturate(P, rules, db) ==
-   LET d2 == StepRules(P, rules, db) IN IF d2 = db THEN db ELSE Saturate(P, rules, d2)
+StepRules(P, js, rk, L, db) == AddFacts(P, db, UNION { ConseqAt(P.rules[j], rk, L, db) : j \in js })
+
+RECURSIVE Saturate(_, _, _, _, _)
+Saturate(P, js, rk, L, db) ==
+   LET d2 == StepRules(P, js, rk, L, db) IN IF d2 = db THEN db ELSE Saturate(P, js, rk, L, d2)
 
 RECURSIVE EvalRanks(_, _, _, _, _)
 EvalRanks(P, rk, L, maxL, db) ==
    IF L > maxL THEN db
-   ELSE EvalRanks(P, rk, L + 1, maxL, Saturate(P, RulesAtRank(P, rk, L), db))
+   ELSE EvalRanks(P, rk, L + 1, maxL, Saturate(P, RulesAtRank(P, rk, L), rk, L, db))
 
 (* edb: any database (facts may be given for every relation, derived ones included) *)
 LeastModelCore(P, edb) ==
@@ -334,12 +373,12 @@ LeastModelCore(P, edb) ==
        init == AddFacts(P, EmptyDb(P), UNION { { <<r, t>> : t \in edb[r] } : r \in DOMAIN edb })
    IN  EvalRanks(P, rk, 0, Max({ rk[r] : r \in RelNames(P) } \cup {0}), init)
 
-LeastModel(P, edb) == LeastModelCore(MacroExpand(P), edb)
+LeastModel(P, edb) == LeastModelCore(Elaborate(P), edb)
 
 (* a fixed point of all rules: nothing can be added (used as "evaluation stops only when no rule can add") *)
-SaturatedCore(P, db) == StepRules(P, { [heads |-> P.rules[j].heads, body |-> P.rules[j].body] : j \in 1..Len(P.rules) }, db) = db
-
-Saturated(P, db) == SaturatedCore(MacroExpand(P), db)
+SaturatedCore(P, db) ==
+   \A j \in 1..Len(P.rules) : AddFacts(P, db, Conseq(P.rules[j], db)) = db
+Saturated(P, db) == SaturatedCore(Elaborate(P), db)
 
 --------------------------------------------------------------------------------
 (* JSON boundary: rows arrive as sequences of columns; set-valued lattice columns as arrays *)
